@@ -827,6 +827,18 @@ def build_kind(args, model):
         if dec.triples:
             dec.epidata[dec.triples[args.get('edit', 0) % len(dec.triples)]] = []
         return dec
+    if kind in ('edited-pop', 'edited-push', 'edited-drop'):
+        # a user's edit of the layout markers: a surplus POP, a Push on another triple, a dropped marker
+        if dec.triples:
+            t = dec.triples[args.get('edit', 0) % len(dec.triples)]
+            if kind == 'edited-pop':
+                dec.epidata.setdefault(t, []).append(layout.POP)
+            elif kind == 'edited-push':
+                vs = sorted(v for v in dec.variables() if isinstance(v, str))
+                dec.epidata.setdefault(t, []).insert(0, layout.Push(vs[args.get('edit', 0) % len(vs)]))
+            elif dec.epidata.get(t):
+                dec.epidata[t].pop(args.get('edit', 0) % len(dec.epidata[t]))
+        return dec
     if kind == 'aligned':
         for i, t in enumerate(dec.triples):
             if i % 2 == args.get('edit', 0) % 2:
@@ -910,6 +922,20 @@ def c12_cls(args, detail):
     if 'A' in prog and any(r.endswith('-of') and not specs.role_defined(model, r) and t not in vs
                            for s, r, t in ts if r != ':instance'):
         return 'N8'
+    # N14: indicate_branches believes every Push marker, also those encode does not realise (on an
+    # instance triple, naming neither end of the triple, repeating an earlier Push, naming the top or a
+    # node already written): the graph carries a Push that is not there after encode + decode
+    if 'I' in prog and args.get('kind') == 'edited-push':
+        try:
+            g = build_kind(args, model)
+            g2 = penman.decode(penman.encode(g, model=model), model=model)
+            for t in g.triples:
+                for e in g.epidata.get(t, []):
+                    if isinstance(e, Push) and not any(isinstance(e2, Push) and e2.variable == e.variable
+                                                       for e2 in g2.epidata.get(t, [])):
+                        return 'N14'
+        except Exception:
+            pass
     # F4: ambiguous dereification table (include-91: :subset/:superset)
     if 'D' in prog and any(t[1] == ':instance' and t[2] == 'include-91' for t in ts):
         return 'F4'
@@ -1003,7 +1029,7 @@ def run_C12(R):
     for it in range(900 if R.quick else 15000):
         ts, top = gen_graph(R.rnd)
         m = R.rnd.choice(['amr', 'amr', 'default', 'custom'])
-        for kind in ('markerless', 'decoded', 'edited', 'aligned'):
+        for kind in ('markerless', 'decoded', 'edited', 'aligned', 'edited-pop', 'edited-push', 'edited-drop'):
             L = R.rnd.choice([1, 1, 2, 3, 4])
             prog = [R.rnd.choice('RDAI') for _ in range(L)]
             if prog.count('I') > 1:
@@ -1023,6 +1049,10 @@ def run_C12(R):
                                     'prog': [p], 'model': 'amr'})
 
 
+    # witness of the repaired finding N13 (a surplus POP before a re-entrant reifiable edge)
+    R.check('C12.program', {'triples': [('a', ':instance', 'x'), ('a', ':r', 'b'), ('b', ':instance', 'y'),
+                                        ('a', ':mod', 'b')],
+                            'top': 'a', 'kind': 'edited-pop', 'prog': ['R'], 'model': 'amr', 'edit': 2})
     # witnesses of the recorded findings N8 and F4 stay in the corpus
     R.check('C12.program', {'triples': [('a', ':instance', 'x'), ('a', ':location-of', 'imperative')],
                             'top': 'a', 'kind': 'decoded', 'prog': ['A'], 'model': 'amr'})
